@@ -53,24 +53,10 @@ theorem FitsU16.append {a b : List LInstr} : FitsU16 (a ++ b) ↔ FitsU16 a ∧ 
     · exact h1 i hi
     · exact h2 i hi
 
-/-- segment `seg` sits at byte offset `k` of the program, operands within 16 bits -/
-def CodeAt (P : Prog) (k : Nat) (seg : List LInstr) : Prop :=
+/-- segment `seg` sits at byte offset `k` of the program bytes, operands within 16 bits
+    (byte level only: the locations of the instructions are not determined by the bytes) -/
+def CodeAtP (P : Prog) (k : Nat) (seg : List LInstr) : Prop :=
   ∃ pre post, P.code = (encodeAll ((pre ++ seg ++ post).map (·.instr))).toArray ∧ lsize pre = k ∧ FitsU16 seg
-
-theorem CodeAt.left {P k a b} (h : CodeAt P k (a ++ b)) : CodeAt P k a := by
-  obtain ⟨pre, post, hc, hk, hf⟩ := h
-  exact ⟨pre, b ++ post, by simpa [List.append_assoc] using hc, hk, (FitsU16.append.1 hf).1⟩
-
-theorem CodeAt.right {P k a b} (h : CodeAt P k (a ++ b)) : CodeAt P (k + lsize a) b := by
-  obtain ⟨pre, post, hc, hk, hf⟩ := h
-  exact ⟨pre ++ a, post, by simpa [List.append_assoc] using hc, by simp [hk], (FitsU16.append.1 hf).2⟩
-
-theorem CodeAt.tail {P k i r} (h : CodeAt P k (i :: r)) : CodeAt P (k + i.instr.size) r := by
-  have := CodeAt.right (a := [i]) (b := r) (by simpa using h)
-  simpa using this
-
-theorem CodeAt.head {P k i r} (h : CodeAt P k (i :: r)) : CodeAt P k [i] :=
-  CodeAt.left (a := [i]) (b := r) (by simpa using h)
 
 /-- the bytes of an instruction in place -/
 structure BytesAt (P : Prog) (k : Nat) (i : Instr) : Prop where
@@ -79,7 +65,7 @@ structure BytesAt (P : Prog) (k : Nat) (i : Instr) : Prop where
   hi : i.op.hasArg = true → P.code[k + 2]? = some (i.arg / 256 % 256)
   fits : i.arg < 65536
 
-theorem CodeAt.bytes {P k i r} (h : CodeAt P k (i :: r)) : BytesAt P k i.instr := by
+theorem CodeAtP.bytes {P k i r} (h : CodeAtP P k (i :: r)) : BytesAt P k i.instr := by
   obtain ⟨pre, post, hc, hk, hf⟩ := h
   have hcode : P.code = (encodeAll (pre.map (·.instr) ++ i.instr :: (r ++ post).map (·.instr))).toArray := by
     simpa [List.append_assoc] using hc
@@ -99,6 +85,43 @@ theorem CodeAt.bytes {P k i r} (h : CodeAt P k (i :: r)) : BytesAt P k i.instr :
   · intro ha
     have hs : i.instr.size = 3 := by simp [Instr.size, ha]
     rw [get 2 (by omega)]; simp [Instr.encode, ha]
+
+
+/-- a program together with the located instruction list it is the encoding of, and the *blame* relation
+    the failure direction of the simulation establishes for every failing step (C13): `blame e l` is
+    claimed of the class `e` and the location `l` of the failing instruction -/
+structure LProg where
+  prog : Prog
+  full : List LInstr
+  enc : prog.code = (encodeAll (full.map (·.instr))).toArray
+  blame : ErrClass → Loc → Prop
+
+abbrev LProg.consts (L : LProg) : Array Val := L.prog.consts
+
+/-- segment `seg` sits at byte offset `k` of the program's instruction list, operands within 16 bits -/
+def CodeAt (L : LProg) (k : Nat) (seg : List LInstr) : Prop :=
+  ∃ pre post, L.full = pre ++ seg ++ post ∧ lsize pre = k ∧ FitsU16 seg
+
+theorem CodeAt.left {P k a b} (h : CodeAt P k (a ++ b)) : CodeAt P k a := by
+  obtain ⟨pre, post, hc, hk, hf⟩ := h
+  exact ⟨pre, b ++ post, by simpa [List.append_assoc] using hc, hk, (FitsU16.append.1 hf).1⟩
+
+theorem CodeAt.right {P k a b} (h : CodeAt P k (a ++ b)) : CodeAt P (k + lsize a) b := by
+  obtain ⟨pre, post, hc, hk, hf⟩ := h
+  exact ⟨pre ++ a, post, by simpa [List.append_assoc] using hc, by simp [hk], (FitsU16.append.1 hf).2⟩
+
+theorem CodeAt.tail {P k i r} (h : CodeAt P k (i :: r)) : CodeAt P (k + i.instr.size) r := by
+  have := CodeAt.right (a := [i]) (b := r) (by simpa using h)
+  simpa using this
+
+theorem CodeAt.head {P k i r} (h : CodeAt P k (i :: r)) : CodeAt P k [i] :=
+  CodeAt.left (a := [i]) (b := r) (by simpa using h)
+
+theorem CodeAt.toP {P : LProg} {k seg} (h : CodeAt P k seg) : CodeAtP P.prog k seg := by
+  obtain ⟨pre, post, hc, hk, hf⟩ := h
+  exact ⟨pre, post, by rw [P.enc, hc], hk, hf⟩
+
+theorem CodeAt.bytes {P : LProg} {k i r} (h : CodeAt P k (i :: r)) : BytesAt P.prog k i.instr := h.toP.bytes
 
 theorem BytesAt.lt {P k i} (h : BytesAt P k i) : k < P.code.size := by
   have := h.op
